@@ -28,7 +28,7 @@ ASSUMPTIONS = ('a queue key is `prefix-<15 digits>` (or an int in (0, 10**15) fo
                'ordinary key outside the queue key range',)
 
 T = 64
-PREFIXES = [None, 'a', 'b', 'a-5', 'a-', 'ab', 'a-5-x']
+PREFIXES = [None, 'a', 'b', 'a-5', 'a-', 'ab', 'a-5-x', 'a-5-7', 'queue', 'queue-1']
 
 
 def plan(tier):
@@ -44,6 +44,7 @@ def is_queue_key(prefix, key):
 
 ORDINARY = [-1, -500000000000000, 0, 10**15, 10**15 + 7, 2**62, 'a', 'b', 'a-5', 'a-', 'ab', 'a-x', 'a-5-x',
             'a-12345678901234x', 'a-500000000000000x', 'a-50000000000000', 'b-', 'a-5-', b'a-500000000000000',
+            'a-5-12345678901234x', 'queue-12', 'queue-50000000000000x',
             ('a', 5), 'a-5-x-', None, -2.5, 1e16, 'aa-500000000000000x']
 
 
@@ -109,7 +110,12 @@ def sequential(dc, sc, res, rng, label):
         prefixes = rng.sample(PREFIXES, rng.randrange(2, 6))
         if rng.random() < 0.7 and 'a' not in prefixes:
             prefixes.append('a')
-        if 'a' in prefixes and ('a-5' in prefixes or 'a-5-x' in prefixes):
+        if rng.random() < 0.5:
+            for pair in (('a-5', 'a-5-7'), ('queue', 'queue-1')):
+                if rng.random() < 0.5:
+                    prefixes.extend(x for x in pair if x not in prefixes)
+        if ('a' in prefixes and ('a-5' in prefixes or 'a-5-7' in prefixes)) or ('a-5' in prefixes and 'a-5-7' in prefixes) \
+                or ('queue' in prefixes and 'queue-1' in prefixes):
             res.count('prefix_extension_cases')
         for step in range(rng.randrange(60, 200)):
             clock.advance(gen.pick(rng, [0, 0, gen.TICK * 2, 0.3, 2.0]) + gen.TICK)
